@@ -63,6 +63,7 @@ def run(sc, keep_sim=False, hold=None):
         res.outs = [list(st.outs) for st in stacks]
         res.oplog = [list(st.oplog) for st in stacks]
         res.summary = [st.summary() for st in stacks]
+        res.cas = [[(ca._device_address_state, ca._device_address, ca._device_address_announced, ca._started) for ca in st.cas] for st in stacks]
         res.end = sim.now
     finally:
         if not keep_sim:
@@ -127,20 +128,23 @@ def _mk_call(sim, stacks, ev, res):
         elif op == 'ca_send':
             ca = st.cas[ev['ca']]
             x = ev['a']
+            ev2 = dict(ev, _state=(ca._device_address_state, ca._device_address), _t0=len(sim.trace))
             r = st.call(('ca_send', sim.now, ev['ca'], x[0], x[1], x[2], x[3], payload(x[4])),
                         lambda: ca.send_pgn(x[0], x[1], x[2], x[3], payload(x[4])))
-            res.returns.append((ev, r))
+            res.returns.append((dict(ev2, _t1=len(sim.trace)), r))
         elif op == 'ca_send_message':
             ca = st.cas[ev['ca']]
             x = ev['a']
+            ev2 = dict(ev, _state=(ca._device_address_state, ca._device_address), _t0=len(sim.trace))
             r = st.call(('ca_send_message', sim.now, ev['ca'], x[0], x[1], payload(x[2])),
                         lambda: ca.send_message(x[0], x[1], payload(x[2])))
-            res.returns.append((ev, r))
+            res.returns.append((dict(ev2, _t1=len(sim.trace)), r))
         elif op == 'ca_request':
             ca = st.cas[ev['ca']]
             x = ev['a']
+            ev2 = dict(ev, _state=(ca._device_address_state, ca._device_address), _t0=len(sim.trace))
             r = st.call(('ca_request', sim.now, ev['ca'], x[0], x[1], x[2]), lambda: ca.send_request(x[0], x[1], x[2]))
-            res.returns.append((ev, r))
+            res.returns.append((dict(ev2, _t1=len(sim.trace)), r))
         elif op == 'ca_start':
             ca = st.cas[ev['ca']]
             st.call(('ca_start', sim.now, ev['ca'], ev['delay']), lambda: ca.start(ev['delay'] / 1e6))
